@@ -33,12 +33,13 @@ SHARD = 120
 WORKERS = 4
 RULE = ('suite (a): seeded TagPool histories (max_tag 3..9 and 2^24-1; get / release of held, free, foreign, reserved tags) '
         'plus fill-to-exhaustion runs (thorough: the real TagPool(2^24-1), 16.7M get() calls); suite (b): seeded op lists for the '
-        'real ThriftMux / Kafka transport on an in-memory socket: requests without deadline, with a pending deadline, with an '
+        'real ThriftMux / Kafka transport sink on an in-memory socket: requests without deadline, with a pending deadline, with an '
         'already expired one; send-loop steps (write ok / write fails); deadline firing and its notification greenlet scheduled '
         'independently; peer frames of 12 types on tags 0, 1, live, free, never-issued, 2^24-1, duplicates and premature '
         'replies; short frames; pings; Close / EOF; re-open on a new connection; TagPool sizes 4..7 to reach exhaustion and '
-        'the real 2^24-1; long runs (2k..100k requests, concurrency <= 8). non-trivial = at least one request frame was '
-        'written and at least one tag was recycled or refused; distinct by canonical JSON of (case, observation)')
+        'the real 2^24-1; scripted time-out-before/after-send and late-reply scenarios interleaved with the random ops; steady '
+        'long runs (400 / 2 000 / 100 000 requests, at most 8 unanswered: highest tag must stay <= 9). non-trivial = at least one '
+        'request frame was written and a tag was recycled or a request refused; distinct by canonical JSON of (case, observation)')
 TRUSTED = ['in-memory socket / step-granting queue / captured Observable notification in harness/props/c11.py (the only '
            'replaced collaborators; TagPool, both transport sinks, Observable, AsyncResult and gevent are the real ones)',
            'independent tag bookkeeping in monitor() of harness/props/c11.py']
@@ -51,11 +52,12 @@ ASSUMPTIONS = ['gevent greenlets only switch at blocking calls, so AsyncProcessR
                'a re-open is a new sink object on a new connection (MuxSocketTransportSink cannot be re-opened once Closed)']
 
 MANIFEST = {
-    'text': ('Theorems C11_range, C11_reserved, C11_unique, C11_unique_wire, C11_release_points, C11_reuse, C11_reuse_peak and '
-             'C11_exhaustion hold for every label sequence (requests, send-loop steps, deadline firing/notification, arbitrary peer '
-             'frames, pings, shutdown, re-open; no bound on length) of the Gallina transcription of TagPool and the mux transport; '
-             'the transcription is compared event for event with the real TagPool and the real ThriftMux/Kafka transport sinks on '
-             '~1.3k (quick) / ~20k (thorough) generated histories per run, and an independent monitor checks the property on the frames.'),
+    'text': ('Theorems C11_range(_real), C11_reserved, C11_unique, C11_unique_wire, C11_unanswered_hold, C11_release_points, C11_reuse, '
+             'C11_reuse_peak, C11_exhaustion, C11_no_early_refusal and C11_fill hold for every label sequence (requests, send-loop steps, '
+             'deadline firing/notification, arbitrary peer frames, pings, shutdown, re-open; no bound on length, every set.pop() outcome) '
+             'of the Gallina transcription of TagPool and the mux transport; the transcription is compared event for event with the real '
+             'TagPool and the real ThriftMux/Kafka transport sinks on ~3k (quick) / ~19k (thorough) generated histories per run, and an '
+             'independent monitor checks the property on the queued/written frames.'),
     'note': ('Trusted: Coq kernel; the harness (in-memory socket, step-granting send queue, captured notification greenlet) and its '
              'sampling of schedules; atomicity of greenlet code between blocking calls. All theorems closed under the global context.'),
     'technique': 'Coq proof (inductive invariant over all label sequences) + lock-step / trace-driven differential execution model vs code',
@@ -364,23 +366,27 @@ def _gen_mux(r, nops, proto=None, mx=None, conc=None):
 
 
 def _gen_longrun(r, nreq, conc=8):
-  """Steady traffic: at most `conc` requests unanswered, every request answered (in random order), some timing out."""
+  """Steady traffic: never more than `conc` requests unanswered.  Replies hit random tags in 2..conc+1; whenever `conc`
+  requests have been issued since the last sweep, the peer answers every tag 2..conc+1 (so everything is answered,
+  including the requests that timed out after transmission).  Hence no tag above conc+1 may ever be used."""
   ops = []
-  unanswered = []      # expected tags are not known here: replies aim at tags 2..conc+1 (all of them live in steady state)
   nc = 0
+  since = 0
   while nc < nreq:
     nc += 1
+    since += 1
     ops.append(['req', nc, 1 if r.random() < 0.1 else 0])
     ops.append(['send', 1])
-    unanswered.append(nc)
     if r.random() < 0.03:
-      ops.append(['fire', nc])
-      ops.append(['notify', nc])
-      ops.append(['send', 1])
-    while len(unanswered) >= conc or (unanswered and r.random() < 0.3):
-      unanswered.pop(r.randrange(len(unanswered)))
+      ops += [['fire', nc], ['notify', nc], ['send', 1]]
+    for _ in range(r.choice([0, 0, 1, 1, 2])):
       ops.append(['recv', -2, r.randrange(2, conc + 2)])
-  return {'kind': 'mux', 'proto': 'thriftmux', 'max': None, 'ops': ops, 'long': True}
+    if since >= conc:
+      tags = list(range(2, conc + 2))
+      r.shuffle(tags)
+      ops += [['recv', -2, t] for t in tags]
+      since = 0
+  return {'kind': 'mux', 'proto': 'thriftmux', 'max': None, 'ops': ops, 'long': conc}
 
 
 def gen_cases(tier, seed):
@@ -870,6 +876,8 @@ def _monitor_mux(case, obs):
         bad('reply-misrouted', i, 'peer frame type %d tag %d: delivered to %s, holder of the tag: %s' % (op[1], op[2], delivered, want))
     elif delivered:
       bad('reply-misrouted', i, 'reply delivered to %s without a peer frame' % delivered)
+  if case.get('long') and hi > case['long'] + 1:
+    v.append(('long-run-high-water', 'steady traffic with at most %d unanswered requests used tags up to %d' % (case['long'], hi)))
   return v
 
 
@@ -1118,16 +1126,21 @@ def stats(cases, obs):
   tot = collections.Counter()
   maxtag = 0
   ops = 0
+  longs = []
   for c, o in zip(cases, obs):
     if not isinstance(o, dict) or 'harness_exc' in o:
       continue
     tot.update(_branches(c, o))
     if c['kind'] == 'mux':
       ops += len(c['ops'])
+      if c.get('long'):
+        longs.append({'requests': sum(1 for op in c['ops'] if op[0] == 'req'), 'max_unanswered': c['long'],
+                      'highest_tag': max([e[2] for evs in o['steps'] for e in evs if e[0] == 'wr' and e[1] == 'req'] or [0])})
       for evs in o['steps']:
         for e in evs:
           if e[0] == 'wr' and e[1] == 'req':
             maxtag = max(maxtag, e[2])
     elif c['kind'] == 'pool':
       ops += len(c['ops'])
-  return {'branch_distribution': dict(sorted(tot.items())), 'operations_executed': ops, 'highest_tag_written': maxtag}
+  return {'branch_distribution': dict(sorted(tot.items())), 'operations_executed': ops, 'highest_tag_written': maxtag,
+          'long_runs': longs}
